@@ -7,6 +7,9 @@ func controls() map[string]string {
 		"modeling/triangulation/zz_verif_control_c20.go": `package triangulation
 
 import (
+	"log"
+	"sort"
+
 	"github.com/EliCDavis/polyform/modeling"
 	"github.com/EliCDavis/vector/vector2"
 	"github.com/EliCDavis/vector/vector3"
@@ -227,6 +230,36 @@ func verifControlMeshGoodCounted(points []vector2.Float64) modeling.Mesh {
 		verts[i] = vector3.New(points[i].X(), 0., points[i].Y())
 	}
 	return modeling.NewMesh(modeling.TriangleTopology, tris).SetFloat3Attribute(modeling.PositionAttribute, verts)
+}
+
+// must fire (DEL-INPUT): the caller's points are sorted in place before they are triangulated
+func verifControlInputBadSorted(points []vector2.Float64) modeling.Mesh {
+	sort.Sort(SortByXComponent(points))
+	triangulation := bowyerWatson(points)
+	tris := make([]int, 0, len(triangulation)*3)
+	for triangle := range triangulation {
+		tris = append(tris, triangle[0], triangle[1], triangle[2])
+	}
+	verts := make([]vector3.Float64, len(points))
+	for i, p := range points {
+		verts[i] = vector3.New(p.X(), 0, p.Y())
+	}
+	return modeling.NewTriangleMesh(tris).SetFloat3Attribute(modeling.PositionAttribute, verts)
+}
+
+// must stay silent (DEL-INPUT): the points are only read (logged, checked for order) before they are triangulated
+func verifControlInputGoodReadOnly(points []vector2.Float64) modeling.Mesh {
+	log.Println(len(points), points, sort.IsSorted(SortByXComponent(points)))
+	triangulation := bowyerWatson(points)
+	tris := make([]int, 0, len(triangulation)*3)
+	for triangle := range triangulation {
+		tris = append(tris, triangle[0], triangle[1], triangle[2])
+	}
+	verts := make([]vector3.Float64, len(points))
+	for i, p := range points {
+		verts[i] = vector3.New(p.X(), 0, p.Y())
+	}
+	return modeling.NewTriangleMesh(tris).SetFloat3Attribute(modeling.PositionAttribute, verts)
 }
 `,
 	}
